@@ -203,24 +203,64 @@ pub fn run(cfg: &Cfg, rep: &mut Report) {
         if class != want_class || val.map(|v| v.to_bits()) != plain.as_ref().ok().map(|v| v.to_bits()) {
             ctx.violation(&format!("C18:amplitude:{}", if class != want_class { "wrong-classification" } else { "number-altered" }), jobj(&[("literal", jbytes(&lit)), ("suffix", jbytes(&suffix)), ("class", class.to_string()), ("value", jstr(&format!("{:?}", val))), ("plain_value", jstr(&format!("{:?}", plain.as_ref().map_err(|e| e.get_code())))) ]));
         }
-        // decibel suffixes: DBV / DBMV / DBUV are logarithmic with the number untouched; V-type suffixes linear; bare unknown
-        let (dbs, kind): (&str, i32) = *rng.pick(&[("DBV", 2), ("DBMV", 2), ("DBUV", 2), ("V", 1), ("MV", 1), ("", 0)]);
-        let ds = case_pattern(rng, dbs);
-        let tok = if dbs.is_empty() { Token::DecimalNumericProgramData(&lit) } else { Token::DecimalNumericSuffixProgramData(&lit, &ds) };
-        let r = Db::<f32, q32::ElectricPotential>::try_from(tok);
-        ctx.count(&format!("decibel.{}", ["bare", "linear", "logarithmic"][kind as usize]));
-        let ok = match (&r, kind) {
-            (Ok(Db::None(v)), 0) => v.to_bits() == x32.to_bits(),
-            (Ok(Db::Linear(_)), 1) => true,
-            (Ok(Db::Logarithmic(v, refq)), 2) => {
-                let want_ref = match dbs { "DBV" => 1.0f32, "DBMV" => 1e-3, _ => 1e-6 };
-                v.to_bits() == x32.to_bits() && (refq.value - want_ref).abs() <= want_ref * 1e-5
+        // decibel suffixes per quantity: logarithmic with the number untouched and the right reference; the
+        // quantity's own suffixes linear; bare number unknown
+        macro_rules! db_case {
+            ($q:ty, $name:literal, $logs:expr, $lin:expr) => {{
+                let logs: &[(&str, f32)] = &$logs;
+                let lin: &[&str] = &$lin;
+                let pick = rng.usize(logs.len() + lin.len() + 1);
+                let (dbs, kind, want_ref): (&str, i32, f32) = if pick < logs.len() { (logs[pick].0, 2, logs[pick].1) } else if pick < logs.len() + lin.len() { (lin[pick - logs.len()], 1, 0.0) } else { ("", 0, 0.0) };
+                let ds = case_pattern(rng, dbs);
+                let tok = if dbs.is_empty() { Token::DecimalNumericProgramData(&lit) } else { Token::DecimalNumericSuffixProgramData(&lit, &ds) };
+                let r = Db::<f32, $q>::try_from(tok);
+                bump(ctx, 1);
+                ctx.count(&format!("decibel.{}.{}", $name, ["bare", "linear", "logarithmic"][kind as usize]));
+                let ok = match (&r, kind) {
+                    (Ok(Db::None(v)), 0) => v.to_bits() == x32.to_bits(),
+                    (Ok(Db::Linear(_)), 1) => true,
+                    (Ok(Db::Logarithmic(v, refq)), 2) => v.to_bits() == x32.to_bits() && (refq.value - want_ref).abs() <= want_ref * 1e-5,
+                    _ => false,
+                };
+                if !ok {
+                    let got = match &r { Ok(Db::None(v)) => format!("None({})", v), Ok(Db::Linear(v)) => format!("Linear({})", v.value), Ok(Db::Logarithmic(v, q)) => format!("Logarithmic({}, reference {})", v, q.value), Err(e) => format!("Err({})", e.get_code()) };
+                    ctx.violation(&format!("C18:decibel:{}:{}:{}", $name, ["bare", "linear", "logarithmic"][kind as usize], dbs), jobj(&[("literal", jbytes(&lit)), ("suffix", jbytes(&ds)), ("got", jstr(&got)), ("expected_reference_in_SI_unit", want_ref.to_string())]));
+                }
+                // a decibel suffix of another quantity is undefined here
+                let foreign = *rng.pick(&["DBV", "DBMV", "DBUV", "DBW", "DBMW", "DBM", "DBUW", "DBA", "DBMA", "DBUA", "DB", "DBX", "DBMM"]);
+                if !logs.iter().any(|l| l.0 == foreign) {
+                    let fs = case_pattern(rng, foreign);
+                    if Db::<f32, $q>::try_from(Token::DecimalNumericSuffixProgramData(&lit, &fs)).is_ok() {
+                        ctx.violation(&format!("C18:decibel:{}:undefined-decibel-suffix-accepted", $name), jobj(&[("literal", jbytes(&lit)), ("suffix", jbytes(&fs))]));
+                    }
+                }
+            }};
+        }
+        match ctx.index % 4 {
+            0 => db_case!(q32::ElectricPotential, "ElectricPotential", [("DBV", 1.0), ("DBMV", 1e-3), ("DBUV", 1e-6)], ["V", "MV", "KV", "UV"]),
+            1 => db_case!(q32::Power, "Power", [("DBW", 1.0), ("DBMW", 1e-3), ("DBM", 1e-3), ("DBUW", 1e-6)], ["W", "MW", "KW", "UW", "MAW"]),
+            2 => db_case!(q32::ElectricCurrent, "ElectricCurrent", [("DBA", 1.0), ("DBMA", 1e-3), ("DBUA", 1e-6)], ["A", "MA", "UA", "KA", "NA"]),
+            _ => db_case!(q32::Ratio, "Ratio", [("DB", 1.0)], ["PCT", "PPM"]),
+        }
+        // amplitude specifiers on another quantity
+        {
+            let unit = rng.pick(CURRENT);
+            let (tail, want_class): (&str, i32) = *rng.pick(&[("", 0), ("PK", 1), ("PP", 2), ("RMS", 3)]);
+            let suffix = case_pattern(rng, &format!("{}{}", unit.s, tail));
+            let r = Amplitude::<q32::ElectricCurrent>::try_from(Token::DecimalNumericSuffixProgramData(&lit, &suffix));
+            let plain_suffix = case_pattern(rng, unit.s);
+            let plain = q32::ElectricCurrent::try_from(Token::DecimalNumericSuffixProgramData(&lit, &plain_suffix)).map(|v| v.value);
+            let (class, val) = match &r {
+                Ok(Amplitude::None(v)) => (0, Some(v.value)),
+                Ok(Amplitude::Peak(v)) => (1, Some(v.value)),
+                Ok(Amplitude::PeakToPeak(v)) => (2, Some(v.value)),
+                Ok(Amplitude::Rms(v)) => (3, Some(v.value)),
+                Err(_) => (-1, None),
+            };
+            bump(ctx, 1);
+            if class != want_class || val.map(|v| v.to_bits()) != plain.as_ref().ok().map(|v| v.to_bits()) {
+                ctx.violation(&format!("C18:amplitude:ElectricCurrent:{}", if class != want_class { "wrong-classification" } else { "number-altered" }), jobj(&[("literal", jbytes(&lit)), ("suffix", jbytes(&suffix)), ("class", class.to_string())]));
             }
-            _ => false,
-        };
-        if !ok {
-            let got = match &r { Ok(Db::None(v)) => format!("None({})", v), Ok(Db::Linear(v)) => format!("Linear({})", v.value), Ok(Db::Logarithmic(v, q)) => format!("Logarithmic({}, {})", v, q.value), Err(e) => format!("Err({})", e.get_code()) };
-            ctx.violation(&format!("C18:decibel:{}", ["bare", "linear", "logarithmic"][kind as usize]), jobj(&[("literal", jbytes(&lit)), ("suffix", jbytes(&ds)), ("got", jstr(&got))]));
         }
     });
 }
